@@ -7,7 +7,7 @@ import concurrent.futures as cf
 from .common import COQDIR, WORK
 
 HEADER = """From Coq Require Import Floats List NArith ZArith Bool.
-From Cfr.theories Require Import Num FInst Tree Strat Eval Solve Exec%s.
+From Cfr.theories Require Import Num FInst Tree Strat Eval Solve %s%s.
 Import ListNotations.
 Open Scope float_scope.
 Set Printing Width 1000000.
@@ -147,7 +147,7 @@ def run_file(path, timeout=600):
     return res
 
 
-def run_shards(name, bodies, extra_imports="", timeout=900, jobs=16, per_shard=48):
+def run_shards(name, bodies, extra_imports="", timeout=900, jobs=16, per_shard=48, exec_module="Exec"):
     """bodies: list of Coq source chunks, each ending in Eval commands printing (id, out).
     Returns dict id -> out.  At most `per_shard` cases go into one coqc process (bounded memory and
     output size); `jobs` processes run at a time."""
@@ -162,7 +162,7 @@ def run_shards(name, bodies, extra_imports="", timeout=900, jobs=16, per_shard=4
             continue
         path = os.path.join(WORK, "%s_%03d.v" % (name, i))
         with open(path, "w") as f:
-            f.write(HEADER % extra_imports)
+            f.write(HEADER % (exec_module, extra_imports))
             f.write("\n".join(sh))
         paths.append(path)
     out = {}
